@@ -347,6 +347,8 @@ def run(ctx):
         oracle_statement(ctx, f, entry, sql, known, stats)
     ctx.extra["oracle"] = dict(stats)
     scrub_stage(ctx, [x for x in stmts if len(x[1]) < 700], known)
+    from props import casex
+    casex.case_stage(ctx, "C05")
     ctx.sample(dict(statement=stmts[-1][1]))
     # ---- model level: parse' on token strings; every leaf of a premise-satisfying tree is in the model's result, and model = implementation
     lv, bad, log = c01.ref_levels(ctx, T) if ok else (None, None, out)
